@@ -126,6 +126,7 @@ class _Site:
         self.is_method = "." in self.qual
         self.cls = self.qual.split(".")[0] if self.is_method else None
         self.keyvars = {}
+        self.shapes = []
 
     # -------------------------------------------------- expression -> role
     def role(self, expr, key=False):
@@ -151,15 +152,9 @@ class _Site:
         return out
 
     def key_of(self, expr):
-        if isinstance(expr, ast.Name) and expr.id in self.keyvars:
-            expr = self.keyvars[expr.id]
-        if not isinstance(expr, ast.JoinedStr):
-            raise SiteError(f"{self.label}: attribute name is not an f-string: {ast.unparse(expr)}")
-        parts = expr.values
-        if not (len(parts) == 3 and isinstance(parts[0], ast.FormattedValue) and isinstance(parts[2], ast.FormattedValue)
-                and isinstance(parts[1], ast.Constant) and parts[1].value == "_to_"):
-            raise SiteError(f"{self.label}: attribute name is not '<a>_to_<b>': {ast.unparse(expr)}")
-        return parts[0].value, parts[2].value
+        ka, kb, shape = resolve_key(self.tree, expr, self.keyvars, self.label)
+        self.shapes.append(shape)
+        return ka, kb
 
     def holder(self, expr):
         txt = ast.unparse(expr)
@@ -292,6 +287,92 @@ class _Site:
         return list(callee.ops())
 
 
+def resolve_key(tree, expr, keyvars, label, depth=0):
+    """(first name expression, second name expression, shape) of an attribute-name expression.  Follows a variable holding
+    the f-string, a call of a module-level helper whose body is a single `return`, and a `re.sub(pattern, repl, <key>)`
+    wrapper.  shape = {"sep": literal between the two names, "norm": None | [pattern, repl]}"""
+    if depth > 4:
+        raise SiteError(f"{label}: attribute name nested too deeply")
+    if isinstance(expr, ast.Name) and expr.id in keyvars:
+        return resolve_key(tree, keyvars[expr.id], keyvars, label, depth + 1)
+    if isinstance(expr, ast.JoinedStr):
+        parts = expr.values
+        if not (len(parts) == 3 and isinstance(parts[0], ast.FormattedValue) and isinstance(parts[2], ast.FormattedValue)
+                and isinstance(parts[1], ast.Constant) and isinstance(parts[1].value, str)
+                and parts[0].conversion == -1 and parts[2].conversion == -1 and parts[0].format_spec is None and parts[2].format_spec is None):
+            raise SiteError(f"{label}: attribute name is not '<a><sep><b>': {ast.unparse(expr)}")
+        return parts[0].value, parts[2].value, {"sep": parts[1].value, "norm": None}
+    if isinstance(expr, ast.Call):
+        ftxt = ast.unparse(expr.func)
+        if ftxt == "re.sub" and len(expr.args) == 3 and all(isinstance(a, ast.Constant) and isinstance(a.value, str) for a in expr.args[:2]):
+            ka, kb, shape = resolve_key(tree, expr.args[2], keyvars, label, depth + 1)
+            if shape["norm"] is not None:
+                raise SiteError(f"{label}: attribute name normalised twice")
+            return ka, kb, {"sep": shape["sep"], "norm": [expr.args[0].value, expr.args[1].value]}
+        if isinstance(expr.func, ast.Name):
+            for n in tree.body:
+                if isinstance(n, ast.FunctionDef) and n.name == expr.func.id:
+                    body = [x for x in n.body if not (isinstance(x, ast.Expr) and isinstance(x.value, ast.Constant))]
+                    if len(body) != 1 or not isinstance(body[0], ast.Return) or expr.keywords or len(expr.args) != len(n.args.args):
+                        break
+                    actual = {p.arg: a for p, a in zip(n.args.args, expr.args)}
+
+                    class Sub(ast.NodeTransformer):
+                        def visit_Name(self, node):
+                            return actual.get(node.id, node)
+                    import copy
+                    return resolve_key(tree, Sub().visit(copy.deepcopy(body[0].value)), {}, label, depth + 1)
+    raise SiteError(f"{label}: attribute name is not an f-string '<a>_to_<b>' (nor a helper returning one): {ast.unparse(expr)}")
+
+
+LOOKUPS = {"Center.convert_to": ("beyond/frames/center.py", "Center.convert_to"),
+           "Orientation.convert_to": ("beyond/frames/orient.py", "Orientation.convert_to")}
+
+
+def extract_lookups(repo):
+    """for each convert_to: the `for a, b in …steps(…)` loop must compute `direct` from (a, b) and `reverse` from (b, a);
+    returns label -> {"direct": [first, second, shape], "reverse": […]} with first/second in {"a", "b"}"""
+    out = {}
+    for label, (file, qual) in LOOKUPS.items():
+        tree = ast.parse(open(os.path.join(repo, file)).read())
+        fn = _find_function(tree, qual)
+        loops = [n for n in ast.walk(fn) if isinstance(n, ast.For) and isinstance(n.iter, ast.Call) and ast.unparse(n.iter.func).endswith("steps")]
+        if len(loops) != 1 or not (isinstance(loops[0].target, ast.Tuple) and len(loops[0].target.elts) == 2):
+            raise SiteError(f"{label}: the loop over steps() was not found")
+        va, vb = (ast.unparse(e) for e in loops[0].target.elts)
+        found = {}
+        for st in ast.walk(loops[0]):
+            if isinstance(st, ast.Assign) and len(st.targets) == 1 and isinstance(st.targets[0], ast.Name) and st.targets[0].id in ("direct", "reverse"):
+                ka, kb, shape = resolve_key(tree, st.value, {}, label)
+                names = []
+                for k in (ka, kb):
+                    t = ast.unparse(k)
+                    if t not in (va, vb):
+                        raise SiteError(f"{label}: lookup key uses `{t}`, not a loop variable")
+                    names.append("a" if t == va else "b")
+                found[st.targets[0].id] = names + [shape]
+        if set(found) != {"direct", "reverse"}:
+            raise SiteError(f"{label}: `direct` / `reverse` keys not found")
+        # the attribute names must be used for hasattr/getattr on self
+        used = {ast.unparse(c.args[1]) for c in ast.walk(loops[0]) if isinstance(c, ast.Call) and ast.unparse(c.func) in ("hasattr", "getattr") and len(c.args) >= 2
+                and ast.unparse(c.args[0]) == "self"}
+        if used != {"direct", "reverse"}:
+            raise SiteError(f"{label}: hasattr/getattr look up {sorted(used)} on self, expected direct / reverse")
+        out[label] = found
+    return out
+
+
+def extract_shapes(repo):
+    """label -> list of key shapes used by the registrations of the site (inlined callees included)"""
+    cache = {}
+    out = {}
+    for label in SITES:
+        st = _Site(label, repo, cache)
+        st.ops()
+        out[label] = st.shapes
+    return out
+
+
 def extract_sites(repo):
     cache = {}
     out = {}
@@ -344,6 +425,27 @@ def to_lean(sites, methods_idx):
     L.append("/-- `def <a>_to_<b>` of the class body of `Orientation`, as indices into `orientNames` -/")
     L.append("def orientMethods : List (Nat × Nat) := [" + ", ".join(f"({a}, {b})" for a, b in methods_idx) + "]")
     L.append("end BeyondVerif.Generated")
+    return "\n".join(L) + "\n"
+
+
+def keys_to_lean(shapes, lookups):
+    def cps(t):
+        return "[" + ", ".join(str(ord(c)) for c in t) + "]"
+
+    def shape(sh):
+        norm = "none" if sh["norm"] is None else f"some ({cps(sh['norm'][0])}, {cps(sh['norm'][1])})"
+        return f"⟨{cps(sh['sep'])}, {norm}⟩"
+    L = ["import BeyondVerif.Model.LinkKey",
+         "/-! how the link-method names are formed at every registration and lookup site, read from the AST (harness/c20_sites.py);",
+         "strings are lists of code points -/",
+         "namespace BeyondVerif.Generated", "open BeyondVerif.LinkKey",
+         "/-- (site, shape of the attribute name) for every `setattr` of the registration sites -/",
+         "def keyShapes : List (String × KeyShape) := [" + ", ".join(f'("{lab}", {shape(sh)})' for lab, shs in shapes.items() for sh in shs) + "]",
+         "/-- (convert_to, `direct` is built from (a, b), `reverse` from (b, a), shape of direct, shape of reverse) -/",
+         "def lookupShapes : List (String × Bool × Bool × KeyShape × KeyShape) := [" + ", ".join(
+             f'("{lab}", {"true" if d["direct"][:2] == ["a", "b"] else "false"}, {"true" if d["reverse"][:2] == ["b", "a"] else "false"}, {shape(d["direct"][2])}, {shape(d["reverse"][2])})'
+             for lab, d in lookups.items()) + "]",
+         "end BeyondVerif.Generated"]
     return "\n".join(L) + "\n"
 
 
